@@ -110,7 +110,7 @@ Kinds == <<"intf", "intstk", "intsp", "intprim", "primsrc", "pfloat", "ratf", "f
 \* ranges of the four generic parameters per kind
 RA(k) == CASE k = "intf" -> 1..2 [] k = "intstk" -> 1..2 [] k = "intsp" -> 1..Len(Specials) [] k = "intprim" -> 1..Len(Widths)
            [] k = "primsrc" -> 0..12 [] k = "pfloat" -> 1..2 [] k = "ratf" -> 1..2 [] k = "fbigf" -> 1..2
-           [] k = "litf" -> 1..Len(Literals) [] k = "litrnd" -> 1..3 [] k = "tofloat" -> 1..4 [] k = "toint" -> 1..3
+           [] k = "litf" -> 1..Len(Literals) [] k = "litrnd" -> 1..3 [] k = "tofloat" -> 1..4 [] k = "toint" -> 1..4
            [] k = "encode" -> 1..2
 RB(k) == CASE k = "intf" -> 1..3 [] k = "intstk" -> 1..3 [] k = "intsp" -> 0..1 [] k = "intprim" -> 0..2 [] k = "primsrc" -> 1..7
            [] k = "pfloat" -> 0..1 [] k = "ratf" -> 1..3 [] k = "fbigf" -> 1..3 [] k = "litf" -> 0..1
@@ -128,7 +128,11 @@ vars == <<phase, kind, a, b, c, d>>
 Init == phase = "pick" /\ kind \in {Kinds[i] : i \in 1..Len(Kinds)} /\ a \in RA(kind) /\ b = 0 /\ c = 0 /\ d = 0
 Pick == /\ phase = "pick" /\ phase' = "done"
         /\ b' \in RB(kind) /\ c' \in RC(kind) /\ d' \in RD(kind)
-        /\ (Big(kind) => (a * 31 + b' * 17 + c' * 13 + d' * 7 + Seed) % Stride = 0)
+        \* the large families are sampled, except the binary-float grid at the three exponents around the underflow
+        \* threshold (half the smallest subnormal): every lead / rounding-bit pattern is kept there
+        /\ (Big(kind) => \/ (a * 31 + b' * 17 + c' * 13 + d' * 7 + Seed) % Stride = 0
+                         \/ (kind = "fbigf" /\ d' >= 16)
+                         \/ (kind = "toint" /\ a = 4))
         /\ UNCHANGED <<kind, a>>
 Next == Pick
 Spec == Init /\ [][Next]_vars
@@ -241,7 +245,22 @@ Cases ==
               [] a = 2 -> IF d # 1 THEN <<>> ELSE
                           <<ToInt(TvF("FR", 10, s, mg, -1, 0), "zero", "Zero"), ToInt(TvF("FR", 2, s, mg, -(c - 1), 0), "zero", "Zero")>>
               [] a = 3 -> LET x == TvR(IF b % 5 = 0 THEN "RX" ELSE "R", s, mg, FromNat(c)) IN
-                          <<ToInt(x, <<"trunc-fract", "trunc", "floor", "ceil", "half-away", "trunc">>[d], "Zero")>>)
+                          <<ToInt(x, <<"trunc-fract", "trunc", "floor", "ceil", "half-away", "trunc">>[d], "Zero")>>
+              \* wide significands (around one, two and three 64-bit words) scaled to the neighbourhood of 1:
+              \* |x| in [1/4, 4), the fractional part straddling word boundaries
+              [] a = 4 -> IF b > 35 THEN <<>> ELSE
+                          LET len == <<63, 64, 65, 127, 128, 129, 191, 192, 193>>[1 + (b % 9)]
+                              wide == CASE b \div 9 = 0 -> Sub(P2(len), One)
+                                        [] b \div 9 = 1 -> Add(P2(len - 1), One)
+                                        [] b \div 9 = 2 -> Sub(P2(len), P2(len \div 2))
+                                        [] OTHER -> Add(Add(P2(len - 1), P2(len - 2)), FromNat(5))
+                              sg == (b + c) % 2
+                              e == (c - 2) - len
+                          IN (IF d = 1 THEN <<ToInt(TvF("FR", 2, sg, wide, e, 0), "zero", "Zero")>> ELSE <<>>)
+                             \o <<ToInt(TvF("F", 2, sg, wide, e, 0), "mode", md)>>
+                             \o (IF len % 4 = 0 /\ d <= 2
+                                 THEN <<ToInt(TvF(IF d = 1 THEN "FR" ELSE "F", 16, sg, wide, (c - 2) - (len \div 4), 0), IF d = 1 THEN "zero" ELSE "mode", md)>>
+                                 ELSE <<>>))
     [] kind = "encode" ->
          LET fi == a  M == FtM[fi]
              s == d % 2
